@@ -74,6 +74,18 @@ theorem isContainedBy_eq_true {x : Interval} {s e : Nat} :
     x.isContainedBy s e = true ↔ s ≤ x.start ∧ x.stop ≤ e := by
   simp [Interval.isContainedBy]
 
+theorem intersect_comm (a b : Interval) : a.intersect b = b.intersect a := by
+  simp only [Interval.intersect, Interval.intersectRange, Nat.max_comm a.start, Nat.min_comm a.stop]
+
+theorem intersect_eq_false {a b : Interval} : a.intersect b = false ↔ ¬ (max a.start b.start < min a.stop b.stop) := by
+  simp [Interval.intersect, Interval.intersectRange]
+
+theorem slice_one {c : Composition} {i : Nat} {sym : Sym} (h : c.symbols[i]? = some sym) : slice c i (i + 1) = [sym] := by
+  obtain ⟨hi, rfl⟩ := List.getElem?_eq_some_iff.mp h
+  unfold slice
+  rw [List.drop_eq_getElem_cons hi, show i + 1 - i = 1 by omega]
+  rfl
+
 /-! ### interval chains -/
 
 theorem IvChain.le {a b : Nat} {l : List Interval} (h : IvChain a b l) : a ≤ b := by
